@@ -676,6 +676,11 @@ func c19Oracle(c *C19Case) string {
 		return m
 	}
 	st.Label("model compared")
+	// the model must describe the caller's data: options or positionals registered
+	// on a struct that the caller's (pointer) field does not lead to are mis-read
+	for id, why := range b.Detached {
+		return fmt.Sprintf("the parser's model contains %s, but the caller's struct does not hold its field: %s", id, why)
+	}
 	escaped := false
 	for _, o := range d.AllOpts() {
 		if strings.Contains(*o.RawTag, `\"`) || strings.Contains(*o.RawTag, `\\`) || len(*o.RawTag) != utf8.RuneCountInString(*o.RawTag) || strings.Contains(*o.RawTag, `\x`) {
